@@ -41,7 +41,7 @@ P = {
  "C17": ("other", "information-flow sources: order-exposing map iteration, address observation, hash values, ambient nondeterminism",
          "The only ways hasher/address dependent information can reach a result are enumerated and shown absent (allowed only in Drop / TinyLFU / sketch seeding); hash containers other than the node index are consumed in iteration order only when they are the caller's own argument; HashMap::capacity() of a node index is a sizing hint only.", "4 C17"),
  "C18": ("other", "node typestate evaluated at every user-code call site on every path (unwind-state obligation)",
-         "At every call into user code (Hash/Eq/BuildHasher/Clone/Drop/callback, incl. through HashMap) on every inlined path, the abstract node state must be unwind-safe: indexed=>linked, freed/boxed=>unreachable, reachable=>initialised, no payload owned twice. Drop guards (crate types with Drop other than the caches) are executed on normal paths and along the unwinding path out of every user-code site whose cleanup chain drops one; a guard may free a node only while it is unlinked and unindexed. Panics inside std's map internals trusted.", "4 C18"),
+         "At every call into user code (Hash/Eq/BuildHasher/Clone/Drop/callback, incl. through HashMap) on every inlined path, the abstract node state must be unwind-safe: indexed=>linked, freed/boxed=>unreachable, reachable=>initialised, no payload owned twice. Drop guards (crate types with Drop other than the caches) are executed on normal paths and along the unwinding path out of every user-code site whose cleanup chain drops one; a guard may free a node only while it is unlinked and unindexed. The walk is repeated in 'orphan mode' (the index may return another node for a node's own key, the state a leak-type unwind leaves behind): nothing frees a node that is still linked or indexed; no unchecked assumption replaces a safe panic. Panics inside std's map internals trusted.", "4 C18"),
  "C19": ("proof", "signature/impl-header rules on type-checked item facts + rustc compile-fail witnesses with compiling twins",
          "Type-level: rustc is the checker. Every region in a public return type is tied to the receiver, &mut out needs &mut self, iterator Send/Sync bounds derived from what the type hands out; witness programs (hold-across-mutation, outlive, double-mut, cross-thread) must be rejected with the expected error code while their twins compile.", "4 C19"),
  "C20": ("other", "all-writers delta pairing on SampledLFU (used vs key_costs) + value provenance",
